@@ -122,7 +122,7 @@ class Ctx:
             self.transitions += gen
         return res
 
-    def validate_batch(self, trace_path, summary, atomic=True, exact=True, timeout=600, max_rejections=4):
+    def validate_batch(self, trace_path, summary, atomic=True, exact=True, timeout=600, max_rejections=4, validator=None):
         """Validates a batch file of traces against AbsTxn, continuing past rejected traces.
         Returns (accepted_count, rejections) with rejections = list of dict(index, line, event)."""
         offsets = summary["offsets"]
@@ -135,12 +135,15 @@ class Ctx:
         accepted = 0
         path = trace_path
         base_line = 0   # number of lines dropped from the front
+        if validator is None:
+            def validator(pth, to):
+                return tlc.validate_abstxn(pth, summary["workers"], summary["keys"], atomic=atomic, exact=exact,
+                                           timeout=to)
         while start < n:
-            r = tlc.validate_abstxn(path, summary["workers"], summary["keys"], atomic=atomic, exact=exact,
-                                    timeout=timeout)
+            r = validator(path, timeout)
             self.states += r["distinct"]
             self.transitions += r["states"]
-            self.tlc_runs.append(dict(module="TraceAbsTxn", rc=r["rc"], generated=r["states"], distinct=r["distinct"],
+            self.tlc_runs.append(dict(module="Trace", rc=r["rc"], generated=r["states"], distinct=r["distinct"],
                                       wall=round(r["wall"], 1)))
             if r["rc"] == 124:
                 # the search did not finish: judge the traces one by one; a single trace that still
@@ -153,8 +156,7 @@ class Ctx:
                     os.close(fd)
                     with open(one, "w") as fh:
                         fh.write("\n".join(lines[offsets[i] - 1:end]) + "\n")
-                    r1 = tlc.validate_abstxn(one, summary["workers"], summary["keys"], atomic=atomic, exact=exact,
-                                             timeout=180)
+                    r1 = validator(one, 180)
                     self.states += r1["distinct"]
                     self.transitions += r1["states"]
                     if r1["rc"] == 124:
